@@ -33,7 +33,7 @@ def check(ctx):
     ctx.consult('plssdesc/plss_parse.py', 'plssdesc/plss_preprocess.py', 'plssdesc/plssdesc.py',
                 'rgxlib/twprge.py', 'rgxlib/sec.py', 'rgxlib/misc.py', 'containers/containers.py', 'trs/trs.py')
     n = check_dispatch(ctx)
-    ctx.floor('layout dispatch tests', n, 7)
+    ctx.floor('layout dispatch tests', n, 4)
     tw = ctx.fold.get('rgxlib.twprge', 'twprge_regex')
     ms = ctx.fold.get('rgxlib.sec', 'multisec_regex')
     ctx.attempt(_inc, 'RX-LANG', 'twprge_regex', F.TWPRGE_FULL, tw, 'full Twp/Rge spellings')
